@@ -139,6 +139,9 @@ impl SemanticState {
 
         for definition in &module.definitions {
             let new_path = path.join(definition.name.as_str().into());
+            if self.type_registry.get(&new_path).is_some() {
+                anyhow::bail!("duplicate definition of `{new_path}`");
+            }
             self.add_item(ItemDefinition {
                 visibility: definition.visibility.into(),
                 path: new_path,
@@ -180,6 +183,9 @@ impl SemanticState {
             })?;
 
             let extern_path = path.join(extern_path.as_str().into());
+            if self.type_registry.get(&extern_path).is_some() {
+                anyhow::bail!("duplicate definition of `{extern_path}`");
+            }
 
             self.add_item(ItemDefinition {
                 visibility: Visibility::Public,
@@ -203,6 +209,16 @@ impl SemanticState {
                 item_definition.path
             )
         })?;
+        // A generated item (a vftable struct) is registered again on every resolution
+        // attempt of its type, unchanged; anything else at an occupied path is a clash.
+        if let Some(existing) = self.type_registry.get(&item_definition.path) {
+            if existing != &item_definition {
+                anyhow::bail!(
+                    "duplicate definition of `{}` (is a type named like a generated vftable struct?)",
+                    item_definition.path
+                );
+            }
+        }
         self.modules
             .get_mut(parent_path)
             .with_context(|| format!("failed to get module for path `{parent_path}`"))?
